@@ -1,4 +1,5 @@
 import HC.Proofs.ReplicaReopen
+import HC.Proofs.BlockGrow
 import HC.Proofs.Crash
 /-!
 A replica that dies in the middle of a proof application (C02 "proof applications on a replica").
@@ -1126,6 +1127,17 @@ inductive Reach (C : Crypto) (bs : Array Bytes) (pk : Bytes) (fork : Nat) : Core
       OkActs C bs pk fork c.tree.length [a] →
       openCore C none (d.applyAll ((c.verifyAndApply C d (actProof C bs c d a)).journal.take k)) = .ok (c', j) →
       Reach C bs pk fork (c', (d.applyAll ((c.verifyAndApply C d (actProof C bs c d a)).journal.take k)).applyAll j)
+  | blockGrow (c : Core) (d : Disk) (i n : Nat) (us : List (Nat × Nat)) (sig : Bytes) : Reach C bs pk fork (c, d) → 0 < c.tree.length →
+      c.tree.length < n → n ≤ bs.size → Up c.tree.length 0 (rootsStack n).reverse us → sig.length = 64 →
+      C.verify pk (signableAt C bs n fork) sig = true → i < c.tree.length →
+      Reach C bs pk fork ((c.verifyAndApply C d (BlockGrow.honestBlockGrowth C bs c d i c.tree.length n us sig)).core,
+        d.applyAll (c.verifyAndApply C d (BlockGrow.honestBlockGrowth C bs c d i c.tree.length n us sig)).journal)
+  | crashBlockGrow (c : Core) (d : Disk) (i n : Nat) (us : List (Nat × Nat)) (sig : Bytes) (k : Nat) (c' : Core) (j : List SOp) :
+      Reach C bs pk fork (c, d) → 0 < c.tree.length →
+      c.tree.length < n → n ≤ bs.size → Up c.tree.length 0 (rootsStack n).reverse us → sig.length = 64 →
+      C.verify pk (signableAt C bs n fork) sig = true → i < c.tree.length →
+      openCore C none (d.applyAll ((c.verifyAndApply C d (BlockGrow.honestBlockGrowth C bs c d i c.tree.length n us sig)).journal.take k)) = .ok (c', j) →
+      Reach C bs pk fork (c', (d.applyAll ((c.verifyAndApply C d (BlockGrow.honestBlockGrowth C bs c d i c.tree.length n us sig)).journal.take k)).applyAll j)
 
 /-- **every reachable state satisfies the replica invariant and the ghost invariant** -/
 theorem reach_rp (C : Crypto) (hC : HashWF C) (hT : TreeWF C) (bs : Array Bytes) (pk : Bytes) (fork : Nat) (s : Core × Disk)
@@ -1189,6 +1201,28 @@ theorem reach_rp (C : Crypto) (hC : HashWF C) (hT : TreeWF C) (bs : Array Bytes)
     obtain ⟨rfl, rfl⟩ := this
     rcases r4 with r4 | r4
     · exact ⟨m, held, r4, by rw [r2]; exact hpk, by rw [r3]; exact hfk⟩
+    · exact ⟨_, _, r4, by rw [r2]; exact hpk, by rw [r3]; exact hfk⟩
+  | blockGrow c d i n us sig _ hm0 hmn hn hup hsl hver hi ih =>
+    obtain ⟨m, held, hrp, hpk, hfk⟩ := ih
+    have hlen : c.tree.length = m := hrp.rep.closed.sparse.length
+    simp only at hpk hfk
+    rw [← hpk, ← hfk] at hver
+    obtain ⟨c1, e, j0, hk⟩ := BlockGrow.blockgrow_ok C hC hT bs c.tree.length n c d held (by rw [hlen]; exact hrp) hm0 hmn hn us hup sig hsl hver i hi
+    obtain ⟨_, r2, r3, r4⟩ := rp_of_ok C bs _ n c c1 d held _ _ e j0 (by rw [hlen]; exact hrp) hk
+    exact ⟨_, _, r2, by rw [r3, hpk], by rw [r4, hfk]⟩
+  | crashBlockGrow c d i n us sig k c' j _ hm0 hmn hn hup hsl hver hi hopen ih =>
+    obtain ⟨m, held, hrp, hpk, hfk⟩ := ih
+    have hlen : c.tree.length = m := hrp.rep.closed.sparse.length
+    simp only at hpk hfk
+    rw [← hpk, ← hfk] at hver
+    obtain ⟨c1, e, j0, hk⟩ := BlockGrow.blockgrow_ok C hC hT bs c.tree.length n c d held (by rw [hlen]; exact hrp) hm0 hmn hn us hup sig hsl hver i hi
+    obtain ⟨c2, j2, r1, r2, r3, r4⟩ := crash_recover C bs _ n c c1 d held _ _ e j0 (by rw [hlen]; exact hrp) hk k
+    rw [hopen] at r1
+    have := Except.ok.inj r1
+    simp only [Prod.mk.injEq] at this
+    obtain ⟨rfl, rfl⟩ := this
+    rcases r4 with r4 | r4
+    · exact ⟨_, held, r4, by rw [r2]; exact hpk, by rw [r3]; exact hfk⟩
     · exact ⟨_, _, r4, by rw [r2]; exact hpk, by rw [r3]; exact hfk⟩
 
 end HC.ReplicaCrash
